@@ -5,13 +5,20 @@
      * `if` compiles test / consequent / alternate with the tail flag inherited;
      * the model reproduces, on concrete sessions, each recorded defect class
        (refutation witnesses) — the property is FALSE on the pinned tree for those;
+     * SEMANTIC compile + run correctness for a FRAGMENT, by induction over all its
+       expressions (Proofs/CompileCorrect.v): self-evaluating constants, (quote d), two- and
+       one-armed `if`, global variable reference, global `define` / `set!`, application of an
+       expression that evaluates to a builtin procedure (builtins abstract: [builtin_ok];
+       proved for the real builtin `not`) — C01_fragment_correct below;
    together with the scoping theorems of C02, the frame theorems of C04, the
    continuation theorems of C05 and the run-loop theorems of C07/C13.
-   OPEN: the semantic compile-correctness theorem (C01_compile_correct_stmt). The
+   OPEN: the semantic compile-correctness theorem for the whole language
+   (C01_compile_correct_stmt): lambda/closures, lexical variables, quasiquote,
+   define-syntax and the derived forms of the prelude are outside the proved fragment. The
    reference semantics used as the spec oracle by the check is lib/scheme_ref.py.  *)
 From Coq Require Import String.
 From MW Require Import Model.Base Model.Datum Model.VmTypes Model.Heap Model.VmBase Model.Compile Model.Vm
-  Model.Builtins Model.WireVm Proofs.CompileProofs.
+  Model.Builtins Model.WireVm Proofs.CompileProofs Proofs.RunProofs Proofs.CompileCorrect.
 Open Scope N_scope.
 
 (* operands strictly left to right, each compiled as a non-tail expression and
@@ -62,7 +69,110 @@ Theorem C01_if_shape : forall f l tail rest,
 Proof. exact compile_if_eq. Qed.
 Print Assumptions C01_if_shape.
 
-(* The full statement, kept visible.  OPEN. *)
+(* ---------------------------------------------------------------------------------
+   Semantic correctness of compile_expression + the VM for the fragment
+     e ::= c | (quote d) | (if e e e) | (if e e) | x | (define x e) | (set! x e) | (e e ...)
+   (x global; the operator of an application evaluates to a builtin), arbitrary nesting.
+   For every well-formed e, every lambda under construction l whose header is that of a
+   top-level lambda, either tail flag, every fuel above the size of the form and every
+   machine s satisfying the invariant [minv] (interning invariant of the heap, global
+   slots allocated injectively, sp < capacity):
+     - compile_expression SUCCEEDS, appends a code segment to l (header unchanged), only
+       extends heap / Rc tables / global bindings [cext], leaves the registers alone;
+     - on EVERY later machine m that extends s', satisfies minv, holds that segment at
+       positions [p, p + len code) of the lambda at lp, has ip = (lp, p) and a global
+       environment agreeing with rho: if the reference semantics gives e the value r and
+       the environment rho', then finitely many instructions (none halting or failing) lead
+       to ip = (lp, p + len code) with a representation of r in %acc (read through at most
+       one pointer, stable under later allocation), the globals agreeing with rho', and
+       sp, bp, ep, the output log and every stack slot up to sp unchanged [frame].
+   JNT/JMP operands are the patched absolute positions; CALL and TCALL of a builtin agree.
+   Hypothesis on builtins: [builtin_ok ob bsem b] for every b (satisfiable for every table
+   with the empty specification; C01_builtin_not_ok proves it for the real `not`). *)
+Theorem C01_fragment_correct :
+  forall (ob : N -> M vcell) (bsem : N -> list rval -> option rval),
+  (forall b, builtin_ok ob bsem b) ->
+  forall e, wf_expr e ->
+  forall f l tail s, (cell_size (cell_of e) < f)%nat -> top_hdr l -> minv s ->
+  exists l' s' code, compile_expression f l tail (cell_of e) s = ROk l' s' /\
+    fwd l' = fwd l ++ code /\ same_hdr l l' /\ minv s' /\ cext s s' /\ same_regs s s' /\
+    forall rho r rho', ref_eval bsem rho e r rho' ->
+    forall m lp bc,
+      cext s' m -> minv m -> code_in m lp bc -> seg bc (len (fwd l)) code -> ip m = (lp, len (fwd l)) ->
+      genv_rel rho m ->
+      exists n m', steps ob n m = Some m' /\ frame m m' /\ minv m' /\
+        ip m' = (lp, len (fwd l) + len code) /\
+        vrep (acc m') r (hp m') (st m') /\ genv_rel rho' m'.
+Proof. exact compile_correct. Qed.
+Print Assumptions C01_fragment_correct.
+
+(* Vm::eval (compile_runnable, put_lambda of the body and of the entry lambda, then the run
+   loop through PUSH Argc 0 / MOV / CALL / ENTER / code of e / RET / HALT) on a fragment
+   expression whose reference value is r: for every sufficient fuel the evaluation is the
+   HALT exit [halt_result m] of a machine m whose %acc represents r, whose globals agree
+   with rho', which extends s and has the sp, bp, ep and output log of s.  The macro
+   expander must leave the form alone (explicit premise; it does whenever no head symbol of
+   the form is bound to a macro). *)
+Theorem C01_eval_fragment :
+  forall (ob : N -> M vcell) (bsem : N -> list rval -> option rval),
+  (forall b, builtin_ok ob bsem b) ->
+  forall e rho r rho' s,
+  wf_expr e -> ref_eval bsem rho e r rho' -> minv s -> genv_rel rho s ->
+  transform_expr TRANSFORM_FUEL s (cell_of e) = Ok (cell_of e) ->
+  exists n m, (forall fuel, (n <= fuel)%nat -> eval ob fuel (cell_of e) s = halt_result m) /\
+    vrep (acc m) r (hp m) (st m) /\ genv_rel rho' m /\ minv m /\ cext s m /\
+    sp m = sp s /\ bp m = bp s /\ ep m = ep s /\ out_log m = out_log s.
+Proof. exact eval_fragment. Qed.
+Print Assumptions C01_eval_fragment.
+
+(* ... and the HALT exit converts %acc to the reference value (for a builtin: its
+   #<procedure> datum) and wipes the stack, provided the fuel of the model's get_as_cell
+   ([cell_fuel] = heap size + 1) covers the depth k of the value.  That the heap size
+   always covers it (values are acyclic) is NOT proved. *)
+Theorem C01_halt_result_done : forall m r, vrep (acc m) r (hp m) (st m) ->
+  exists k, (k <= cell_fuel m)%nat ->
+    halt_result m = ROk (Done (rcell r)) (with_stack m tempty (sp m)).
+Proof. exact halt_result_done. Qed.
+Print Assumptions C01_halt_result_done.
+
+(* n instructions that neither halt nor fail are n iterations of the run loop *)
+Theorem C01_steps_run_loop : forall ob n m m' f cyc, steps ob n m = Some m' ->
+  run_loop ob (n + f) cyc None m = run_loop ob f 0 None m'.
+Proof. exact run_loop_steps. Qed.
+Print Assumptions C01_steps_run_loop.
+
+(* the builtin hypothesis holds for the real `not` of the generated table, with the
+   specification "not of one argument is #t exactly on #f" *)
+Theorem C01_builtin_not_ok : forall b, builtin_ok other_builtin bsem_not b.
+Proof. exact builtin_ok_not. Qed.
+Print Assumptions C01_builtin_not_ok.
+
+(* ... and trivially for any table with the empty specification *)
+Theorem C01_builtin_ok_satisfiable : forall ob b, builtin_ok ob (fun _ _ => None) b.
+Proof. exact builtin_ok_unspecified. Qed.
+Print Assumptions C01_builtin_ok_satisfiable.
+
+(* non-vacuity: the hypotheses of C01_fragment_correct hold for
+   (if (define x '(#t)) x #f) on the empty machine, whose reference value is (#t) *)
+Example C01_fragment_example :
+  wf_expr ex_e /\ minv (vm_empty 8192) /\ genv_rel rho_empty (vm_empty 8192) /\
+  ref_eval bsem_not rho_empty ex_e (RDatum ex_datum) (upd rho_empty (S_ "x") (RDatum ex_datum)).
+Proof. exact ex_hypotheses. Qed.
+(* the model evaluates that form on the empty machine to (#t), as C01_eval_fragment and
+   C01_halt_result_done predict (the premise on transform_expr holds by computation) *)
+Example C01_fragment_example_run :
+  transform_expr TRANSFORM_FUEL (vm_empty 8192) (cell_of ex_e) = Ok (cell_of ex_e) /\
+  match eval other_builtin 100 (cell_of ex_e) (vm_empty 8192) with
+  | ROk (Done c) s' => c = ex_datum /\ sp s' = 0 /\ bp s' = 0 /\ ep s' = USIZE_MAX
+  | _ => False
+  end.
+Proof. vm_compute. repeat split. Qed.
+(* (not (not '#f)) has the reference value #f wherever `not` is bound to the builtin *)
+Example C01_fragment_example_app : forall rho, rho (S_ "not") = Some (RBuiltin B_NOT) ->
+  wf_expr ex_app /\ ref_eval bsem_not rho ex_app (RDatum (CBool false)) rho.
+Proof. exact ex_app_ref. Qed.
+
+(* The full statement, kept visible.  OPEN (proved for the fragment above only). *)
 Definition C01_compile_correct_stmt : Prop :=
   forall (reference : list text -> list N) (forms : list text),
     (* for every session of the generator grammar outside the recorded defect classes *)
